@@ -1,0 +1,28 @@
+//go:build verif
+// +build verif
+
+package types
+
+// Read-only projection of the unexported caches of ValidatorSet for the model-based checks in /verif.
+// Compiled only with -tags verif.
+
+type VerifValSetCache struct {
+	ProposerCached  bool   // valSet.proposer != nil
+	ProposerAddress []byte // address of the cached proposer
+	ProposerOwn     bool   // the cached pointer is one of valSet.Validators (not another set's object)
+	TotalCached     int64  // valSet.totalVotingPower (0 = not cached)
+}
+
+func (valSet *ValidatorSet) VerifCache() VerifValSetCache {
+	c := VerifValSetCache{TotalCached: valSet.totalVotingPower}
+	if valSet.proposer != nil {
+		c.ProposerCached = true
+		c.ProposerAddress = append([]byte(nil), valSet.proposer.Address...)
+		for _, v := range valSet.Validators {
+			if v == valSet.proposer {
+				c.ProposerOwn = true
+			}
+		}
+	}
+	return c
+}
